@@ -381,6 +381,9 @@ def fidelity_job(arg):
         # user extra_data holding the number (texts in extra_data are not exercised)
         extra = {'num': val, 'nums': [val, 0.5]} if is_number(val) else {'num': 1}
         m.extra_data = dict(extra)
+        # keys which are numbers (a json file has text keys only: yml and pkl)
+        numkeys = {7: 'seven', 2.5: 'half'} if ft != 'json' else {}
+        m.extra_data.update(numkeys)
         try:
             for a in addrs:
                 m.evaluate(a)
@@ -419,9 +422,11 @@ def fidelity_job(arg):
                 out['violations'].append((
                     f'value {val!r} saved to {ft}: loaded model differs {bad[:2]}', case))
         else:
-            if canon({k: loaded.extra_data.get(k) for k in extra}) != canon(extra):
+            if canon({k: loaded.extra_data.get(k) for k in extra}) != canon(extra) or \
+                    {k: loaded.extra_data.get(k) for k in numkeys} != numkeys:
                 out['violations'].append((
-                    f'extra_data {extra!r} did not survive {ft}: {dict(loaded.extra_data)!r}', case))
+                    f'extra_data { {**extra, **numkeys}!r} did not survive {ft}: '
+                    f'{dict(loaded.extra_data)!r}', case))
             # ResaveReproduces: the loaded model saved to every file type
             for ft2 in ('yml', 'json', 'pkl'):
                 out['resaves'] += 1
@@ -441,6 +446,8 @@ def fidelity_job(arg):
                     second = ExcelCompiler.from_file(again + '.' + ft2, plugins=plugins_of(plug))
                     got2 = observe(second)
                     extra2 = {k: second.extra_data.get(k) for k in extra}
+                    if ft2 != 'json' and {k: second.extra_data.get(k) for k in numkeys} != numkeys:
+                        extra2['number keys'] = dict(second.extra_data)
                 except Exception as exc:          # noqa
                     out['violations'].append((
                         f'value {val!r}: saving the model loaded from {ft} to {ft2} and loading '
